@@ -658,9 +658,13 @@ macro_rules! impl_const_elem_matrix {
         let mut cursor = Cursor::new(bytes);
         let rows = cursor.read_u32::<LittleEndian>().unwrap() as usize;
         let cols = cursor.read_u32::<LittleEndian>().unwrap() as usize;
-        let mut elements: Vec<T> = Vec::with_capacity(rows * cols);
+        let mut elements: Vec<T> = Vec::with_capacity(rows.saturating_mul(cols).min(bytes.len()));
 
         // Read in column-major order
+        // the dimensions come from the file: they must fit the payload, and an empty
+        // matrix must not be iterated column by column
+        if rows.saturating_mul(cols) > bytes.len() { panic!("matrix of {}x{} elements does not fit its {} byte payload", rows, cols, bytes.len()); }
+        let cols = if rows == 0 { 0 } else { cols };
         for _c in 0..cols {
           for _r in 0..rows {
             let elem = T::from_le(&bytes[cursor.position() as usize..]);
@@ -698,8 +702,12 @@ where
     let mut cursor = Cursor::new(bytes);
     let rows = cursor.read_u32::<LittleEndian>().unwrap() as usize;
     let cols = cursor.read_u32::<LittleEndian>().unwrap() as usize;
-    let mut elements = Vec::with_capacity(rows * cols);
+    let mut elements = Vec::with_capacity(rows.saturating_mul(cols).min(bytes.len()));
     // Read in column-major order
+    // the dimensions come from the file: they must fit the payload, and an empty
+    // matrix must not be iterated column by column
+    if rows.saturating_mul(cols) > bytes.len() { panic!("matrix of {}x{} elements does not fit its {} byte payload", rows, cols, bytes.len()); }
+    let cols = if rows == 0 { 0 } else { cols };
     for _c in 0..cols {
       for _r in 0..rows {
         let elem = T::from_le(&bytes[cursor.position() as usize..]);
@@ -733,8 +741,12 @@ where
     let mut cursor = Cursor::new(bytes);
     let rows = cursor.read_u32::<LittleEndian>().unwrap() as usize;
     let cols = cursor.read_u32::<LittleEndian>().unwrap() as usize;
-    let mut elements = Vec::with_capacity(rows * cols);
+    let mut elements = Vec::with_capacity(rows.saturating_mul(cols).min(bytes.len()));
     // Read in column-major order
+    // the dimensions come from the file: they must fit the payload, and an empty
+    // matrix must not be iterated column by column
+    if rows.saturating_mul(cols) > bytes.len() { panic!("matrix of {}x{} elements does not fit its {} byte payload", rows, cols, bytes.len()); }
+    let cols = if rows == 0 { 0 } else { cols };
     for _c in 0..cols {
       for _r in 0..rows {
         let elem = T::from_le(&bytes[cursor.position() as usize..]);
@@ -768,8 +780,12 @@ where
     let mut cursor = Cursor::new(bytes);
     let rows = cursor.read_u32::<LittleEndian>().unwrap() as usize;
     let cols = cursor.read_u32::<LittleEndian>().unwrap() as usize;
-    let mut elements = Vec::with_capacity(rows * cols);
+    let mut elements = Vec::with_capacity(rows.saturating_mul(cols).min(bytes.len()));
     // Read in column-major order
+    // the dimensions come from the file: they must fit the payload, and an empty
+    // matrix must not be iterated column by column
+    if rows.saturating_mul(cols) > bytes.len() { panic!("matrix of {}x{} elements does not fit its {} byte payload", rows, cols, bytes.len()); }
+    let cols = if rows == 0 { 0 } else { cols };
     for _c in 0..cols {
       for _r in 0..rows {
         let elem = T::from_le(&bytes[cursor.position() as usize..]);
@@ -853,8 +869,12 @@ where
     let mut cursor = Cursor::new(bytes);
     let rows = cursor.read_u32::<LittleEndian>().unwrap() as usize;
     let cols = cursor.read_u32::<LittleEndian>().unwrap() as usize;
-    let mut elements = Vec::with_capacity(rows * cols);
+    let mut elements = Vec::with_capacity(rows.saturating_mul(cols).min(bytes.len()));
     // Read in column-major order
+    // the dimensions come from the file: they must fit the payload, and an empty
+    // matrix must not be iterated column by column
+    if rows.saturating_mul(cols) > bytes.len() { panic!("matrix of {}x{} elements does not fit its {} byte payload", rows, cols, bytes.len()); }
+    let cols = if rows == 0 { 0 } else { cols };
     for _c in 0..cols {
       for _r in 0..rows {
         let elem = T::from_le(&bytes[cursor.position() as usize..]);
@@ -1156,7 +1176,7 @@ impl ConstElem for ValueKind {
         let elem_vk = ValueKind::from_le(&bytes[cursor.position() as usize..]);
         cursor.set_position(cursor.position() + 1); // advance past elem_vk tag
         let dim_count = cursor.read_u32::<LittleEndian>().expect("read matrix dim count") as usize;
-        let mut dims = Vec::with_capacity(dim_count);
+        let mut dims = Vec::with_capacity(dim_count.min(bytes.len()));
         for _ in 0..dim_count {
             dims.push(cursor.read_u32::<LittleEndian>().expect("read matrix dim") as usize);
         }
@@ -1171,7 +1191,7 @@ impl ConstElem for ValueKind {
       #[cfg(feature = "table")]
       26 => {
         let field_count = cursor.read_u32::<LittleEndian>().expect("read table fields length") as usize;
-        let mut fields = Vec::with_capacity(field_count);
+        let mut fields = Vec::with_capacity(field_count.min(bytes.len()));
         for _ in 0..field_count {
           let name = String::from_le(&bytes[cursor.position() as usize..]);
           let mut buf = Vec::new();
@@ -1372,13 +1392,15 @@ impl ConstElem for MechSet {
       .read_u32::<LittleEndian>()
       .expect("read set element count") as usize;
     // 3) read each Value (advance cursor using each value's encoded length)
-    let mut set = IndexSet::with_capacity(num_elements);
+    let mut set = IndexSet::with_capacity(num_elements.min(data.len()));
     for _ in 0..num_elements {
       let pos = cursor.position() as usize;
       let value = Value::from_le(&data[pos..]);
       // measure its encoded length by re-serializing
       let mut tmp = Vec::new();
       value.write_le(&mut tmp);
+      // an element that encodes to nothing would never advance the cursor
+      if tmp.is_empty() { panic!("constant element with an empty encoding"); }
       cursor.set_position(pos as u64 + tmp.len() as u64);
       set.insert(value);
     }
@@ -1412,13 +1434,15 @@ impl ConstElem for MechTuple {
       .read_u32::<LittleEndian>()
       .expect("read tuple element count") as usize;
     // 3) Read each element
-    let mut elements: Vec<Box<Value>> = Vec::with_capacity(num_elements);
+    let mut elements: Vec<Box<Value>> = Vec::with_capacity(num_elements.min(data.len()));
     for _ in 0..num_elements {
       let pos = cursor.position() as usize;
       let value = Value::from_le(&data[pos..]);
       // Measure how many bytes were consumed by this value
       let mut tmp = Vec::new();
       value.write_le(&mut tmp);
+      // an element that encodes to nothing would never advance the cursor
+      if tmp.is_empty() { panic!("constant element with an empty encoding"); }
       cursor.set_position(pos as u64 + tmp.len() as u64);
       elements.push(Box::new(value));
     }
